@@ -12,9 +12,10 @@ PLAIN = [["Solver", {}], ["SolverCacheless", {}], ["SolverStrings", {}]]
 
 # clauses each property owns (a failing clause outside the set belongs to another property's check)
 QUERY_CLAUSES = {"satisfiable", "eval-infeasible", "eval-duplicates", "eval-count", "min", "max", "solution",
-                 "unsat-on-sat", "answer-on-unsat", "exc"}
+                 "unsat-on-sat", "answer-on-unsat", "eval-on-unsat", "solution-on-unsat", "exc"}
 TRUTH_CLAUSES = {"is_true-overclaims", "is_false-overclaims"}
-APPROX_CLAUSES = {"approx-unsat-on-sat", "approx-excludes-value", "approx-min-too-high", "approx-max-too-low"}
+APPROX_CLAUSES = {"approx-unsat-on-sat", "approx-excludes-value", "approx-min-too-high", "approx-max-too-low",
+                  "approx-none-on-sat"}
 SPLIT_CLAUSES = {"split-shared-vars", "split-conjuncts", "split-duplicate", "split-models"}
 CORE_CLAUSES = {"core-on-sat", "core-not-subset", "core-satisfiable"}
 FAULT_CLAUSES = {"fault-answered", "fault-foreign-exception", "fault-unsat-on-sat"}
@@ -32,15 +33,53 @@ def jobs_C11(tier, seed):
     return J
 
 
+def jobs_generic(classes, tag, per_q, per_t, W=3, n=16, **kw):
+    def f(tier, seed):
+        per = per_q if tier == "quick" else per_t
+        J = []
+        for k in range(n):
+            reuse = "1" if k % 2 else "0"
+            j = {"mode": "random", "seed": seed * 100 + k, "n": per, "len": 10, "W": W, "classes": classes,
+                 "probe": True, "tag": f"{tag}-r{reuse}", "env": {"REUSE_Z3_SOLVER": reuse}}
+            j.update(kw)
+            J.append(j)
+        return J
+    return f
+
+
+COMPOSITE = [["SolverComposite", {}]]
+REPL_EXACT = [["SolverReplacement", {}], ["SolverReplacement", {"auto_replace": False}], ["SolverHybrid", {}],
+              ["SolverReplacementCacheless", {}]]
+APPROX = [["SolverVSA", {}], ["SolverHybrid", {"approximate_first": True}]]
+ALL_EXACT = PLAIN + COMPOSITE + [["SolverReplacement", {}], ["SolverHybrid", {}]]
+TRACKED = [["Solver", {"track": True}], ["SolverComposite", {"track": True}], ["SolverCacheless", {"track": True}]]
+
 SPECS = {
     "C11": dict(jobs=jobs_C11, clauses=QUERY_CLAUSES | TRUTH_CLAUSES, level="model_checking"),
+    "C12": dict(jobs=jobs_generic(COMPOSITE, "c12", 50, 500, W=2, alpha="xyz", multi=True),
+                clauses=QUERY_CLAUSES | TRUTH_CLAUSES | SPLIT_CLAUSES, level="model_checking"),
+    "C13": dict(jobs=lambda tier, seed: jobs_generic(REPL_EXACT, "c13", 40, 400, n=10, with_bool=True)(tier, seed)
+                + jobs_generic(APPROX, "c13a", 40, 400, n=4, alpha="approx")(tier, seed)
+                + jobs_generic([["SolverHybrid", {}]], "c13h", 40, 400, n=2, alpha="approx",
+                               cfg={"hybrid_exact": False})(tier, seed),
+                clauses=QUERY_CLAUSES | TRUTH_CLAUSES | APPROX_CLAUSES, level="model_checking"),
+    "C14": dict(jobs=jobs_generic(ALL_EXACT, "c14", 40, 400, branchy=True),
+                clauses=QUERY_CLAUSES | TRUTH_CLAUSES, level="model_checking"),
+    "C15": dict(jobs=lambda tier, seed: jobs_generic(PLAIN + [["SolverHybrid", {}]], "c15", 40, 400, n=8, multi=True)(tier, seed)
+                + jobs_generic(COMPOSITE, "c15c", 40, 400, n=8, W=2, alpha="xyz", multi=True)(tier, seed),
+                clauses=QUERY_CLAUSES | TRUTH_CLAUSES | SPLIT_CLAUSES, level="model_checking"),
+    "C16": dict(jobs=jobs_generic(TRACKED, "c16", 50, 500), clauses=CORE_CLAUSES | {"exc"}, level="model_checking"),
+    "C17": dict(jobs=jobs_generic(PLAIN + COMPOSITE, "c17", 50, 500, faults=True, branchy=True),
+                clauses=QUERY_CLAUSES | FAULT_CLAUSES, level="fault_enumeration"),
+    "C18": dict(jobs=jobs_generic(ALL_EXACT, "c18", 40, 400, pickle=True),
+                clauses=QUERY_CLAUSES | TRUTH_CLAUSES, level="model_checking"),
 }
 
 
 def describe(ev):
     """short rendering of an event for replay files / finding predicates"""
     return {k: ev[k] for k in ("call", "s", "e", "es", "n", "v", "signed", "extra", "cs", "others", "ret", "rets",
-                               "exc", "mode", "fault", "fired") if k in ev}
+                               "exc", "mode", "fault", "fired", "cls", "kw", "new", "anc", "groups", "checks") if k in ev}
 
 
 def check(pid, tier, regen=False):
@@ -82,16 +121,68 @@ def check(pid, tier, regen=False):
     return R.finish()
 
 
+def _pred_composite_unsat_flag(tr, k, clause):
+    """a SolverComposite received a concretely false constraint (only recorded in its private _unsat flag) and a
+    combine / merge / split happened before the failing step"""
+    evs = tr["ev"][:k]
+    ev = evs[-1]
+    if ev.get("cls") not in ("SolverComposite", "SolverCompositeChild"):
+        return False
+    return any(e["call"] == "add" and e.get("cfalse") for e in evs) and \
+        any(e["call"] in ("combine", "merge", "split") for e in evs)
+
+
+def _pred_replacement_concrete_on_unsat(tr, k, clause):
+    """SolverReplacement / SolverHybrid answer a query whose expression becomes concrete under the installed
+    replacements without consulting the constraints, also when those are unsatisfiable"""
+    ev = tr["ev"][k - 1]
+    return ev.get("cls", "").startswith("SolverReplacement") and \
+        clause in ("answer-on-unsat", "eval-on-unsat", "solution-on-unsat")
+
+
+def _pred_composite_stale_child(tr, k, clause):
+    """split() of a SolverComposite after a query that spanned several variables: the merged child created for the
+    query stays registered for variables that have no constraints, so the parts overlap"""
+    evs = tr["ev"][:k]
+    ev = evs[-1]
+    if ev.get("cls") != "SolverComposite" or ev["call"] != "split" or clause != "split-shared-vars":
+        return False
+
+    def nvars(t):
+        from .term import free_vars
+        return len(free_vars(t))
+    return any(e["call"] in ("eval", "batch_eval", "min", "max", "solution") and
+               max([nvars(e["e"])] + [nvars(x) for x in e["es"]] + [nvars(x) for x in e["extra"]] + [0]) >= 2
+               for e in evs)
+
+
+def _pred_core_empty_on_concrete_false(tr, k, clause):
+    """the constraints are unsatisfiable because a constraint folded to False when it was built; the backend was
+    never asked and unsat_core() returns an empty core"""
+    evs = tr["ev"][:k]
+    ev = evs[-1]
+    return ev["call"] == "unsat_core" and clause == "core-satisfiable" and len(ev["rets"]) == 0 and \
+        any(e["call"] == "add" and e.get("cfalse") and e["s"] == ev["s"] for e in evs)
+
+
+PREDICATES = {"composite-unsat-flag": _pred_composite_unsat_flag,
+              "core-empty-on-concrete-false": _pred_core_empty_on_concrete_false,
+              "composite-stale-child": _pred_composite_stale_child,
+              "replacement-concrete-on-unsat": _pred_replacement_concrete_on_unsat}
+
+
 def match_finding(findings, tr, k, clause):
     ev = tr["ev"][k - 1]
     for f in findings:
         m = f.get("match", {})
-        if m.get("clause") and m["clause"] != clause:
+        if m.get("clauses") and clause not in m["clauses"]:
             continue
-        if m.get("call") and m["call"] != ev["call"]:
+        if m.get("calls") and ev["call"] not in m["calls"]:
             continue
-        if m.get("class"):
-            cls = next((e for e in tr["ev"] if e["call"] == "new"), None)
-            # class name is recorded in the tid tag only; skip class matching when unavailable
+        if m.get("classes") and ev.get("cls") not in m["classes"]:
+            continue
+        pred = PREDICATES.get(m.get("pred"))
+        if pred is None or not pred(tr, k, clause):
+            continue
         return f
     return None
